@@ -21,6 +21,11 @@ CONFIGS = {
     # every instruction-set extension the host CPU has (covers cfg(target_feature = ...) paths beyond the named sets, e.g. avx512*)
     "native": ("release", HOOK + " -C target-cpu=native", "", "cx-exec"),
     "fe32": ("release", HOOK, "force32", "cx-exec"),
+    # vector paths and checked arithmetic together (a vector path may overflow / assert only in checked builds)
+    "sse41chk": ("release", HOOK + " -C target-feature=+sse4.1 -C overflow-checks=on -C debug-assertions=on", "", "cx-exec"),
+    "nativechk": ("release", HOOK + " -C target-cpu=native -C overflow-checks=on -C debug-assertions=on", "", "cx-exec"),
+    # without SSE2: the crate's portable engines (ChaCha reference engine, portable BLAKE2 / SHA-2) as the ones actually selected
+    "nosse2": ("release", HOOK + " -C target-feature=-sse2", "", "cx-exec"),
     "ctvictim": ("release", "", "", "cx-ctvictim"),
     "ctvictim32": ("release", "", "force32", "cx-ctvictim"),
 }
